@@ -74,7 +74,7 @@ def parseArg (t : String) : Option Arg :=
     else if k == "al" then some (.s v)                                  -- a comma-joined list of addresses: a string argument
     else if k == "u" then some (match v.toNat? with | some n => .u n | none => .badnum)
     else if k == "b" then some (.b (v == "1"))
-    else if k == "x" || k == "ibtp" || k == "ibtpc" || k == "addrs" then some .opq      -- bytes arguments: opaque to the model
+    else if k == "x" || k == "ibtp" || k == "ibtpc" || k == "addrs" || k == "trust" then some .opq      -- bytes arguments: opaque to the model
     else if k == "f" || k == "raw" then some .badnum                    -- float / raw-typed arguments fit no modelled signature
     else if k == "i" then some (match parseInt? v with | some n => .i n | none => .badnum)
     else none
@@ -100,7 +100,10 @@ def parseTx (t : List String) : Option Tx :=
       let typ := if typ == "req" then some IType.interchain else if typ == "ok" then some .receiptSuccess
         else if typ == "fail" then some .receiptFailure else if typ == "rb" then some .receiptRollback
         else typ.toNat?.map IType.other
-      let pk := if pk == "ok" then some ProofKind.ok else if pk == "none" then some .none else if pk == "bad" then some .bad else if pk == "false" then some .plainFalse else none
+      let pk := if pk == "ok" then some ProofKind.ok else if pk == "none" then some .none else if pk == "bad" then some .bad else if pk == "false" then some .plainFalse
+        -- signatures of another BitXHub's validators: only meaningful once that hub is registered (a governance operation the
+        -- model does not follow; the comparison of such a history has ended by then): a well-formed proof for the model
+        else if pk.startsWith "msig" then some .ok else none
       -- a destination whose chain id equals its BitXHub id addresses a hub-level (inter-broker) service: outside the model
       let hubSvc := match parseSvc to with | some d => d.chain == d.bxh | none => false
       if hubSvc then some (.bvm signer "?ibtp" "?" []) else
